@@ -473,7 +473,12 @@ class McmcSim:
             before = boldness(op)
             tv_before = tuning_value(op)
             self.pre_tune_checks(op, rec, float(acceptance_prob))
-            r = orig(acceptance_prob, *a, **k)
+            try:
+                r = orig(acceptance_prob, *a, **k)
+            except Exception:
+                # the transition is part of the history even if tune() dies: keep it replayable
+                self.trace.append({"op": rec.op_index, "seed": rec.seed, "coin": rec.coin or {"policy": "uniform", "u": 0.5}})
+                raise
             after = boldness(op)
             self.finish(rec, op, float(acceptance_prob), before, after, tv_before, k.get("accepted", a[1] if len(a) > 1 else None))
             return r
